@@ -292,9 +292,14 @@ def run_live(desc, out):
                     delivered["all"] += 1
                     delivered[99] += 1
             if rng.random() < 0.3 and w.market(mid) is not None and w.market(mid).closed:
-                # what the market-closure worker does once cleared
-                w.market(mid).orders_cleared.append("c")
-                w.market(mid).market_cleared.append("c")
+                # what the market-closure worker does once cleared: first the orders, later (another poll) the market summary
+                mk_ = w.market(mid)
+                had_ = bool(mk_.market_cleared)
+                mk_.orders_cleared.append("c")
+                out.rule("reopen")
+                if mk_.market_cleared and not had_:
+                    out.v("cleared-flags-not-independent", {"reopened": mid in reopened or mid in close_time}, market=mid)
+                mk_.market_cleared.append("c")
             while not w.fw.handler_queue.empty():
                 ev = w.fw.handler_queue.get()
                 if isinstance(ev, CloseMarketEvent):
